@@ -624,7 +624,11 @@ type verCase struct {
 
 func versionFamily(r *rand.Rand, n int) []verCase {
 	var out []verCase
-	add := func(v string, compat bool, class string) { out = append(out, verCase{v, compat, class}) }
+	add := func(v string, compat bool, class string) {
+		if len(v) <= 16 { // the header field holds 16 bytes
+			out = append(out, verCase{v, compat, class})
+		}
+	}
 	ok := map[string]bool{"1.0.0": true, "0.5.8": true, "0.5.9": true, "0.5.10": true, "0.5.11": true, "0.5.12": true}
 	// every released 0.5.x and neighbours
 	for p := 0; p <= 40; p++ {
@@ -668,6 +672,31 @@ func versionFamily(r *rand.Rand, n int) []verCase {
 		add(v+"-\xc3\xa9", false, "non-ascii")
 		add(v+"+\xc3\xa9", false, "non-ascii")
 	}
+	// numeric aliases: components that only differ from a compatible version beyond 8, 16, 32 or 64 bits,
+	// or that spell the same packed number with a carry between the components
+	for v := range ok {
+		var a, b, p uint64
+		fmt.Sscanf(v, "%d.%d.%d", &a, &b, &p)
+		for _, w := range []uint64{1 << 8, 1 << 16, 1 << 31, 1 << 32, 1 << 63} {
+			add(fmt.Sprintf("%d.%d.%d", a, b, p+w), false, "alias")
+			add(fmt.Sprintf("%d.%d.%d", a, b+w, p), false, "alias")
+			add(fmt.Sprintf("%d.%d.%d", a+w, b, p), false, "alias")
+			if b > 0 && w < 1<<62 {
+				add(fmt.Sprintf("%d.%d.%d", a, b-1, p+w), false, "alias")
+				add(fmt.Sprintf("%d.%d.%d", a, 0, p+w*b), false, "alias")
+			}
+			if a > 0 && w < 1<<62 {
+				add(fmt.Sprintf("%d.%d.%d", a-1, b+w, p), false, "alias")
+				add(fmt.Sprintf("%d.%d.%d", 0, 0, p+w*b+w*w*a), false, "alias")
+			}
+		}
+		add(fmt.Sprintf("%d.%d.1844674407370955%d", a, b, 1616+p), false, "alias") // 2^64 + p
+		add(fmt.Sprintf("%d.%d.%d", a, b, p+1000), false, "alias")
+		add(fmt.Sprintf("%d.%d.%d", a, b+10, p), false, "alias")
+	}
+	add("0.256.0", false, "alias")
+	add("0.0.65536", false, "alias")
+	add("0.0.16777216", false, "alias")
 	add("00.5.12", false, "leading-zero")
 	add("0.05.12", false, "leading-zero")
 	add("0.5.012", false, "leading-zero")
@@ -835,7 +864,12 @@ func genC07(c *lp.Ctx) {
 		if vc.compat {
 			want = "compatible"
 		}
-		if strings.SplitN(ans, " ", 2)[0] != want {
+		// A version with build meta data equals its release for the comparison, but no writer ever
+		// produced one: refusing it is a difference from the model (reported by the diff), not a
+		// violation of the property, which only demands that incompatible versions are rejected.
+		if vc.compat && strings.Contains(vc.v, "+") {
+			c.Hit("version/build-meta-data:model-comparison-only")
+		} else if strings.SplitN(ans, " ", 2)[0] != want {
 			c.Violate(lp.Violation{What: fmt.Sprintf("version %q", vc.v), Script: []string{line}, Expected: want, Got: ans})
 		}
 		c.Hit("version-answer/" + strings.SplitN(ans, " ", 2)[0])
